@@ -35,4 +35,4 @@ def run(ctx):
 def run_panics(ctx, rid="C07.R4"):
     run_panic_inventory(ctx, rid, entries(ctx.prog),
                         "no unreviewed non-arithmetic panic site (bounds check, unwrap, index, panic!, div by zero, RefCell, Duration ops) is reachable in the search thread",
-                        ctx_sensitive=True, kinds=("contract",), fn_floor=200, site_floor=60)
+                        ctx_sensitive=True, kinds=("contract",), fn_floor=200, site_floor=60, declared_invariants_undecided=True)
